@@ -138,8 +138,23 @@ def run_case(ctx, g, rng):
     if ctx.tier == "quick" and len(perms) > 8:
         perms = rng.sample(perms, k=8)
     outs = set()
-    for perm in perms:
-        o = call(api.Converter, [gen.mk_record(api, r) for r in perm])
+    for pi, perm in enumerate(perms):
+        made = [gen.mk_record(api, r) for r in perm]
+        # "records: Iterable[Record]": every other permutation arrives as a tuple or a one-shot iterable
+        shape = rng.choice(["list", "list", "tuple", "generator", "iterator", "map", "keyword"])
+        S.counters[f"wl:records-handed-over-as:{shape}"] += 1
+        if shape == "tuple":
+            o = call(api.Converter, tuple(made))
+        elif shape == "generator":
+            o = call(api.Converter, (x for x in made))
+        elif shape == "iterator":
+            o = call(api.Converter, iter(made))
+        elif shape == "map":
+            o = call(api.Converter, map(lambda x: x, made))
+        elif shape == "keyword":
+            o = call(api.Converter, records=made, strict=True)
+        else:
+            o = call(api.Converter, made)
         outs.add(type(o[1]).__name__)
         if o[0] == "ret":
             c = o[1]
